@@ -257,4 +257,186 @@ theorem removeUnreachable_spec (cfg : Cfg) (fs : FS) (w : WS) (h : PInv cfg fs w
         exact (hR q).mpr ((hd.reach q).mp this)
       · simp [e] at hx
 
+/-! ### adding the missing reachable files -/
+
+/-- the loop body of `addMissingReachableLocked` -/
+def addStep (cfg : Cfg) (fsr : FS) (wa : WS × Bool) (path : String) : WS × Bool :=
+  if (wa.1.idx.files.get path).isSome then wa else
+  match fsr.get path with
+  | none => wa
+  | some c => (updateResolved (putFile cfg wa.1 path c []) path c, true)
+
+theorem addMissing_eq (cfg : Cfg) (σ : List String) (fsr : FS) (w : WS) (R : List String) :
+    addMissingReachable cfg σ fsr w R =
+      (let r := (orderBy σ R).foldl (addStep cfg fsr) (w, false)
+       if r.2 then (clearCaches r.1, true) else r) := rfl
+
+/-- what the disk shows for files that are not indexed is what the invariant is about -/
+def Agree (fsr fsd : FS) (w : WS) : Prop := ∀ q, w.idx.files.get q = none → fsr.get q = fsd.get q
+
+theorem succG_putFile (cfg : Cfg) (w : WS) (x : String) (c : Contrib) (old : List String) (u : String) :
+    succG (putFile cfg w x c old).incG u = if x = u then (mkFileIdx x c).includes else succG w.incG u := by
+  unfold succG putFile
+  rw [incG_update]
+
+/-- indexing a file that was not indexed -/
+theorem addOne (cfg : Cfg) (fsr fsd : FS) (w : WS) (x : String) (c : Contrib)
+    (h : PInv cfg fsd w) (hok : fsOk fsd = true) (hag : Agree fsr fsd w)
+    (hx : w.idx.files.get x = none) (hc : fsr.get x = some c) :
+    let w' := updateResolved (putFile cfg w x c []) x c
+    PInv cfg fsd w' ∧ Agree fsr fsd w' ∧
+    (∀ y, w'.idx.files.get y = if x = y then some (mkFileIdx x c) else w.idx.files.get y) ∧
+    (∀ u, ReachS (succG w.incG) w.root u → ReachS (succG w'.incG) w.root u) ∧
+    w'.root = w.root ∧
+    (w'.cFormats = w.cFormats ∧ w'.cComms = w.cComms ∧ w'.cAccts = w.cAccts) := by
+  intro w'
+  have hcd : fsd.get x = some c := by rw [← hag x hx]; exact hc
+  obtain ⟨hxne, hcok⟩ := fsOk_get fsd hok x c hcd
+  have hinc0 : includesOf w x = [] := includesOf_none w x hx
+  have hput := putFile_ginv cfg fsd fsd w x c h.g hxne hcok hcd (fun _ _ => rfl)
+  rw [hinc0] at hput
+  obtain ⟨f1, f2, f3, f4, _, f6, f7, f8⟩ := updateResolved_fields (putFile cfg w x c []) x c
+  obtain ⟨p1, _, p3, p4, p5, p6, p7, p8⟩ := putFile_other cfg w x c []
+  have hfiles : ∀ y, w'.idx.files.get y = if x = y then some (mkFileIdx x c) else w.idx.files.get y := by
+    intro y
+    show (updateResolved (putFile cfg w x c []) x c).idx.files.get y = _
+    rw [f2]; exact files_putFile cfg w x c [] hxne y
+  have hroot : w'.root = w.root := f1.trans p1
+  refine ⟨⟨?_, ?_, updateResolved_ginv cfg fsd _ NoDead x c hput, ?_⟩, ?_, hfiles, ?_, hroot,
+    ⟨f6.trans p6, f7.trans p7, f8.trans p8⟩⟩
+  · rw [hroot]; exact h.root_ne
+  · rw [hroot, hfiles]
+    by_cases e : x = w.root
+    · simp [e]
+    · simp only [e, if_false]; exact h.rootIdx
+  · exact updateResolved_rinv fsd fsd w (putFile cfg w x c []) x c h.r p1 ⟨p3, p4, p5⟩
+      (fun y => files_putFile cfg w x c [] hxne y) hcd (fun _ _ => rfl)
+  · intro q hq
+    rw [hfiles q] at hq
+    by_cases e : x = q
+    · simp [e] at hq
+    · simp only [e, if_false] at hq; exact hag q hq
+  · intro u hu
+    apply reachS_mono hu
+    intro p _ q hq
+    show q ∈ succG (updateResolved (putFile cfg w x c []) x c).incG p
+    rw [f3, succG_putFile]
+    by_cases e : x = p
+    · subst e
+      unfold succG at hq
+      rw [h.g.incOk x, hinc0] at hq
+      simp at hq
+    · simpa [e] using hq
+
+structure AddAll (cfg : Cfg) (fsr fsd : FS) (w : WS) (b : Bool) (L : List String)
+    (w' : WS) (b' : Bool) : Prop where
+  pinv : PInv cfg fsd w'
+  agree : Agree fsr fsd w'
+  files : ∀ y, (w'.idx.files.get y).isSome ↔
+    ((w.idx.files.get y).isSome ∨ (y ∈ L ∧ (fsr.get y).isSome))
+  keep : ∀ y fi, w.idx.files.get y = some fi → w'.idx.files.get y = some fi
+  flag : b' = true ↔ (b = true ∨ ∃ y ∈ L, w.idx.files.get y = none ∧ (fsr.get y).isSome)
+  reach : ∀ u, ReachS (succG w.incG) w.root u → ReachS (succG w'.incG) w.root u
+  root : w'.root = w.root
+  caches : w'.cFormats = w.cFormats ∧ w'.cComms = w.cComms ∧ w'.cAccts = w.cAccts
+
+theorem addAll (cfg : Cfg) (fsr fsd : FS) (hok : fsOk fsd = true) :
+    ∀ (L : List String) (w : WS) (b : Bool), PInv cfg fsd w → Agree fsr fsd w →
+      AddAll cfg fsr fsd w b L ((L.foldl (addStep cfg fsr) (w, b)).1)
+        ((L.foldl (addStep cfg fsr) (w, b)).2) := by
+  intro L
+  induction L with
+  | nil =>
+    intro w b h hag
+    exact ⟨h, hag, fun y => by simp, fun y fi h => h, by simp, fun u h => h, rfl, ⟨rfl, rfl, rfl⟩⟩
+  | cons x L ih =>
+    intro w b h hag
+    simp only [List.foldl_cons]
+    by_cases hx : (w.idx.files.get x).isSome
+    · -- already indexed
+      have e : addStep cfg fsr (w, b) x = (w, b) := by simp [addStep, hx]
+      rw [e]
+      have := ih w b h hag
+      refine ⟨this.pinv, this.agree, ?_, this.keep, ?_, this.reach, this.root, this.caches⟩
+      · intro y
+        rw [this.files y]
+        constructor
+        · rintro (h1 | ⟨h1, h2⟩)
+          · exact Or.inl h1
+          · exact Or.inr ⟨List.mem_cons_of_mem _ h1, h2⟩
+        · rintro (h1 | ⟨h1, h2⟩)
+          · exact Or.inl h1
+          · rcases List.mem_cons.mp h1 with h1 | h1
+            · exact Or.inl (h1 ▸ hx)
+            · exact Or.inr ⟨h1, h2⟩
+      · rw [this.flag]
+        constructor
+        · rintro (h1 | ⟨y, h1, h2⟩)
+          · exact Or.inl h1
+          · exact Or.inr ⟨y, List.mem_cons_of_mem _ h1, h2⟩
+        · rintro (h1 | ⟨y, h1, h2, h3⟩)
+          · exact Or.inl h1
+          · rcases List.mem_cons.mp h1 with h1 | h1
+            · subst h1; rw [h2] at hx; simp at hx
+            · exact Or.inr ⟨y, h1, h2, h3⟩
+    · have hxn : w.idx.files.get x = none := by
+        cases e : w.idx.files.get x with
+        | none => rfl
+        | some _ => simp [e] at hx
+      cases hc : fsr.get x with
+      | none =>
+        have e : addStep cfg fsr (w, b) x = (w, b) := by simp [addStep, hxn, hc]
+        rw [e]
+        have := ih w b h hag
+        refine ⟨this.pinv, this.agree, ?_, this.keep, ?_, this.reach, this.root, this.caches⟩
+        · intro y
+          rw [this.files y]
+          constructor
+          · rintro (h1 | ⟨h1, h2⟩)
+            · exact Or.inl h1
+            · exact Or.inr ⟨List.mem_cons_of_mem _ h1, h2⟩
+          · rintro (h1 | ⟨h1, h2⟩)
+            · exact Or.inl h1
+            · rcases List.mem_cons.mp h1 with h1 | h1
+              · subst h1; rw [hc] at h2; simp at h2
+              · exact Or.inr ⟨h1, h2⟩
+        · rw [this.flag]
+          constructor
+          · rintro (h1 | ⟨y, h1, h2⟩)
+            · exact Or.inl h1
+            · exact Or.inr ⟨y, List.mem_cons_of_mem _ h1, h2⟩
+          · rintro (h1 | ⟨y, h1, h2, h3⟩)
+            · exact Or.inl h1
+            · rcases List.mem_cons.mp h1 with h1 | h1
+              · subst h1; rw [hc] at h3; simp at h3
+              · exact Or.inr ⟨y, h1, h2, h3⟩
+      | some c =>
+        have e : addStep cfg fsr (w, b) x = (updateResolved (putFile cfg w x c []) x c, true) := by
+          simp [addStep, hxn, hc]
+        rw [e]
+        obtain ⟨a1, a2, a3, a4, a5, a6⟩ := addOne cfg fsr fsd w x c h hok hag hxn hc
+        have := ih _ true a1 a2
+        refine ⟨this.pinv, this.agree, ?_, ?_, ?_, ?_, this.root.trans a5, ?_⟩
+        · intro y
+          rw [this.files y, a3 y]
+          by_cases e2 : x = y
+          · subst e2
+            simp [hc]
+          · have : ¬ y = x := fun h => e2 h.symm
+            simp [e2, this]
+        · intro y fi hy
+          apply this.keep
+          rw [a3 y]
+          by_cases e2 : x = y
+          · subst e2; rw [hxn] at hy; simp at hy
+          · simp [e2, hy]
+        · rw [this.flag]
+          simp only [true_or, true_iff]
+          exact Or.inr ⟨x, List.mem_cons_self, hxn, by rw [hc]; rfl⟩
+        · intro u hu
+          rw [← a5]
+          exact this.reach u (a5 ▸ a4 u hu)
+        · obtain ⟨c1, c2, c3⟩ := this.caches
+          exact ⟨c1.trans a6.1, c2.trans a6.2.1, c3.trans a6.2.2⟩
+
 end HL.Lemmas.Refresh
